@@ -1399,6 +1399,9 @@ var c16Unparseable = []string{
 	"\x00\x01\x02 not go\n",
 	"package p\n\nfunc f() { cnt(0) }\n\n}}}} trailing\n",
 	"func f() { cnt(0) }\n",
+	// generated source: the parser reports the error for another file name
+	"package p\n\n//line grammar.y:42\nfunc f( {\n\tcnt(0)\n}\n",
+	"//line /abs/elsewhere/parser.y:1\npackage p\n\nfunc f() { cnt(0 }\n",
 }
 
 func c16Padding(rt *rapid.T, label string) int {
